@@ -167,22 +167,28 @@ FIELDS = dict(
 )
 
 
-def run_alg(spec, inp, fs, kf):
+def run_alg(spec, inp, fs, kf, hold=None, reuse=None, same_setup=False):
     """Run one class through its setup on the (possibly transformed) input.  kf = factor applied to every frequency-valued
-    ARGUMENT (sel_freq, DF...) - the same physical request expressed in the new time unit."""
+    ARGUMENT (sel_freq, DF...) - the same physical request expressed in the new time unit.
+    hold: dict that receives the (setup, algorithm) objects.  reuse = such a pair: the SAME algorithm object (already run and
+    queried) is attached to the new setup and run again; same_setup: it is simply run again on the setup it is attached to."""
     from pyoma2.setup import MultiSetup_PreGER, SingleSetup
 
     alg, P = spec["alg"], spec["P"]
     fam = family(alg)
     out = {}
     try:
-        if spec["setup"] == "single":
-            st = SingleSetup(np.array(inp["data"], dtype=float), fs=fs)
-            a = make_alg(alg, P, inp.get("ref_ind"))
+        if same_setup and reuse is not None:
+            st, a = reuse
         else:
-            st = MultiSetup_PreGER(fs=fs, ref_ind=[list(r) for r in inp["ref_ind"]], datasets=[np.array(d, dtype=float) for d in inp["datasets"]])
-            a = make_alg(alg, P, None)
-        st.add_algorithms(a)
+            if spec["setup"] == "single":
+                st = SingleSetup(np.array(inp["data"], dtype=float), fs=fs)
+            else:
+                st = MultiSetup_PreGER(fs=fs, ref_ind=[list(r) for r in inp["ref_ind"]], datasets=[np.array(d, dtype=float) for d in inp["datasets"]])
+            a = reuse[1] if reuse is not None else make_alg(alg, P, inp.get("ref_ind") if spec["setup"] == "single" else None)
+            st.add_algorithms(a)
+        if hold is not None:
+            hold["pair"] = (st, a)
         st.run_by_name("a")
     except Exception as e:  # noqa: BLE001
         return dict(exc="run:" + type(e).__name__)
@@ -236,11 +242,26 @@ def apply_transform(spec, base_inp, T):
         return inp, 1.0, ident
     if t == "fs":
         return inp, T["k"], ident
+    if t == "rerun":
+        return inp, 1.0, ident
+    if t == "refform":
+        # the same reference channels written another way: negative indices (legal NumPy indexing) or the list reversed
+        l = base_inp["data"].shape[1]
+        ref = list(base_inp["ref_ind"])
+        if T["form"] == "negative":
+            inp["ref_ind"] = [int(r % l) - l if i % 2 == 0 else int(r % l) for i, r in enumerate(ref)]
+        elif T["form"] == "positive":
+            inp["ref_ind"] = [int(r % l) for r in ref]
+        else:
+            inp["ref_ind"] = ref[::-1]
+        return inp, 1.0, ident
     rng = np.random.default_rng(T["seed"])
     if single:
         data = base_inp["data"]
         l = data.shape[1]
         ref = base_inp.get("ref_ind")
+        if ref is not None:
+            ref = [int(r % l) for r in ref]
         if t == "perm":
             p = rng.permutation(l)
             while l > 1 and np.all(p == np.arange(l)):
@@ -249,6 +270,8 @@ def apply_transform(spec, base_inp, T):
             if ref is not None:
                 pinv = np.argsort(p)
                 inp["ref_ind"] = [int(pinv[r]) for r in ref]
+                if T.get("neg"):  # the mapped indices written as negative indices (every other one)
+                    inp["ref_ind"] = [m - l if i % 2 else m for i, m in enumerate(inp["ref_ind"])]
             return inp, 1.0, (lambda v, p=p: v[p])
         # orthogonal mixing, block structured when a reference subset is in use
         Q = np.zeros((l, l))
@@ -517,7 +540,7 @@ def cmp_poles_multiset(rec, Tn, base, got, kf, smap, site, P):
                     if min(shape_dev(np.conj(e), Pg[j, o, :]) for j in cands) <= TOL_B:
                         continue
                     rec.fail("Phi_poles under %s: order column %d, pole fn=%.6g: shape is not the %s of the untransformed one (deviation %.3g)" % (
-                        Tn, o, Fb[i, o], "permuted/rotated image" if Tn in ("perm", "mix") else "same as that", sdev), site + ":Phi_poles")
+                        Tn, o, Fb[i, o], "permuted/rotated image" if Tn.startswith(("perm", "mix")) else "same as that", sdev), site + ":Phi_poles")
                     return
             else:
                 unmatched_b.append(i)
@@ -585,7 +608,10 @@ def compare_core(rec, spec, base, got, T, kf, smap):
     fam = family(spec["alg"])
     tier = spec["tier"]
     Tn = T["t"]
-    site = Tn
+    site = Tn + ("-reuse" if T.get("reuse") and Tn != "rerun" else "") + ("-" + T["form"] if Tn == "refform" else "") + ("-neg" if T.get("neg") else "")
+    if Tn == "rerun" or (Tn == "refform" and T["form"] in ("negative", "positive")):
+        tier = "A"   # the very same computation: identical results whatever the record
+    Tn = site        # wording of the messages ("fs-reuse" = same algorithm object attached to the second setup)
     P = spec["P"]
     if ("exc" in base) or ("exc" in got):
         if base.get("exc") != got.get("exc"):
@@ -632,12 +658,12 @@ def compare_core(rec, spec, base, got, T, kf, smap):
     if fam in ("FDD", "EFDD"):
         # singular values of the spectral matrix are invariant (up to the free level factor)
         cmp_prop(rec, "S_val", Tn, base["S_val"], got["S_val"], site, TOL_B)
-        if Tn in ("gain", "fs"):
+        if T["t"] in ("gain", "fs"):
             cmp_prop(rec, "Sy", Tn, base["Sy"], got["Sy"], site, TOL_B)
         elif spec["setup"] == "single":
             cmp_sy_mapped(rec, Tn, base["Sy"], got["Sy"], smap, site)
     if fam == "pLSCF" and spec["setup"] == "single":
-        if Tn in ("gain", "fs"):
+        if T["t"] in ("gain", "fs"):
             cmp_prop(rec, "Sy", Tn, base["Sy"], got["Sy"], site, TOL_B)
         else:
             cmp_sy_mapped(rec, Tn, base["Sy"], got["Sy"], smap, site)
@@ -684,7 +710,7 @@ def compare_core(rec, spec, base, got, T, kf, smap):
             rec.checked += 1
             if sdev > (TOL_B if fam in ("SSI", "pLSCF") else 1e-5):
                 rec.fail("Phi under %s: extracted shape %d is not the %s of the untransformed one (deviation %.3g)" % (
-                    Tn, m, "permuted/rotated image" if Tn in ("perm", "mix") else "same as that", sdev), site + ":Phi")
+                    Tn, m, "permuted/rotated image" if Tn.startswith(("perm", "mix")) else "same as that", sdev), site + ":Phi")
                 return
 
 
@@ -732,16 +758,19 @@ def run_case(spec):
                 base_inp["ref_ind"] = list(spec["ref_ind"])
         else:
             base_inp = dict(datasets=d["datasets"], ref_ind=d["ref_ind"])
-        base = run_alg(spec, base_inp, fs0, 1.0)
+        hold = {}
+        base = run_alg(spec, base_inp, fs0, 1.0, hold=hold)
         nontrivial = "exc" not in base
         for nm in ("Phi_poles", "Phi"):
             v = base.get(nm)
             if v is not None:
                 unit_max_check(rec, nm, "none", v if nm == "Phi_poles" else np.asarray(v).T, "base")
         npoles = int(np.sum(~np.isnan(base["Fn_poles"]))) if base.get("Fn_poles") is not None else 0
-        for T in spec["transforms"]:
+        # "rerun" (run twice on the SAME setup) goes first: afterwards the object is re-attached to other setups
+        for T in sorted(spec["transforms"], key=lambda T: T["t"] != "rerun"):
             inp, kf, smap = apply_transform(spec, base_inp, T)
-            got = run_alg(spec, inp, fs0 * kf, kf)
+            pair = hold.get("pair") if (T.get("reuse") and "exc" not in base) else None
+            got = run_alg(spec, inp, fs0 * kf, kf, reuse=pair, same_setup=(T["t"] == "rerun"))
             compare(rec, spec, base, got, T, kf, smap)
         info = dict(exc=base.get("exc"), mpe_exc=base.get("mpe_exc"), npoles=npoles,
                     nmodes=0 if base.get("Fn") is None else int(np.size(base["Fn"])))
@@ -797,13 +826,16 @@ def gen_cases(ctx, tier, per_alg):
             spec["noise"] = float(rng.choice([0.3, 0.6, 1.0])) if tier == "A" else float(rng.choice([0.01, 0.02, 0.05]))
             if family(alg) in ("FDD", "EFDD"):
                 spec["band"] = (0.15, 0.42)
+            ref = None
             if single:
                 l = int(rng.integers(3, 7)) if v % 2 else int(rng.integers(2, 9))
                 spec["l"] = l
                 ref = None
                 if family(alg) == "SSI" and v % 2 == 1:
                     r = int(rng.integers(2, l))
-                    ref = [int(x) for x in rng.choice(l, size=r, replace=False)]
+                    ref = [int(x) for x in rng.choice(l, size=r, replace=False)]   # unsorted, as listed
+                    if v % 4 == 1:   # written with negative indices (every other one)
+                        ref = [x - l if i % 2 == 0 else x for i, x in enumerate(ref)]
                 spec["ref_ind"] = ref
                 l_eff, nref_eff = l, (l if ref is None else len(ref))
             else:
@@ -825,14 +857,23 @@ def gen_cases(ctx, tier, per_alg):
                     ks = [int(x) for x in rng.choice([-20, -11, -6, -3, -1, 1, 2, 5, 10, 17, 24], size=2, replace=False)]
                 kf = [int(x) for x in rng.choice([-6, -4, -2, 2, 4, 6], size=2, replace=False)]
                 # the two ends of the gain range [1e-6, 1e6] ALWAYS, on every class variant and record amplitude, plus one more
-                spec["transforms"] = [dict(t="gain", g=float(2.0 ** -20)), dict(t="gain", g=float(2.0 ** 20)), dict(t="gain", g=-float(2.0 ** ks[1])),
-                                      dict(t="fs", k=float(2.0 ** kf[0])), dict(t="fs", k=float(2.0 ** kf[1]))]
+                # reuse=True: the SAME algorithm object (already run and queried on the untransformed setup) is attached to the second
+                # setup and run again; rerun: run twice on the same setup
+                spec["transforms"] = [dict(t="gain", g=float(2.0 ** -20)), dict(t="gain", g=float(2.0 ** 20), reuse=True), dict(t="gain", g=-float(2.0 ** ks[1])),
+                                      dict(t="fs", k=float(2.0 ** kf[0])), dict(t="fs", k=float(2.0 ** kf[1]), reuse=True), dict(t="rerun", reuse=True)]
+                if ref is not None:
+                    spec["transforms"].append(dict(t="refform", form="positive" if v % 4 == 1 else "negative"))
             else:
                 g = float(10 ** rng.uniform(-6, 6)) * (1 if rng.random() < 0.7 else -1)
                 k = float(10 ** rng.uniform(-2, 2))
                 sg = -1.0 if rng.random() < 0.5 else 1.0
-                spec["transforms"] = [dict(t="gain", g=1e-6 * sg), dict(t="gain", g=-1e6 * sg), dict(t="gain", g=g), dict(t="fs", k=k),
+                k2 = float(10 ** rng.uniform(-2, 2))
+                spec["transforms"] = [dict(t="gain", g=1e-6 * sg), dict(t="gain", g=-1e6 * sg, reuse=True), dict(t="gain", g=g), dict(t="fs", k=k),
+                                      dict(t="fs", k=k2, reuse=True), dict(t="rerun", reuse=True),
                                       dict(t="perm", seed=int(rng.integers(1, 2**31))), dict(t="mix", seed=int(rng.integers(1, 2**31)))]
+                if ref is not None:
+                    spec["transforms"] += [dict(t="perm", seed=int(rng.integers(1, 2**31)), neg=True), dict(t="refform", form="reversed"),
+                                           dict(t="refform", form="positive" if v % 4 == 1 else "negative")]
             cases.append(spec)
     return cases
 
